@@ -245,6 +245,11 @@ def build_recipes():
         add('transform.to_rfi', lambda c, k=kind: (tr.to_rfi, [c.sample(k), _own(c, ['FL1-H', 'FSC-H'])],
                                                    dict(amplification_type=_own(c, [(4.0, 1.0), (0.0, 0.0)]),
                                                         amplifier_gain=_own(c, [None, 2.0]), resolution=_own(c, [1024, None]))))
+    # lists with entries left to the file (None): they are the caller's and stay as given
+    for kind in ('int', 'float'):
+        add('transform.to_rfi', lambda c, k=kind: (tr.to_rfi, [c.sample(k), _own(c, ['FL1-H', 'FSC-H', 'FL2-H'])],
+                                                   dict(amplification_type=_own(c, [None, (0.0, 0.0), None]),
+                                                        amplifier_gain=_own(c, [None, None, None]), resolution=_own(c, [None, None, 512]))))
     add('transform.to_rfi', lambda c: (tr.to_rfi, [c.array(), _own(c, [2])], dict(amplification_type=_own(c, [(2.0, 1.0)]),
                                                                                  resolution=_own(c, [1024]))))
     curve = lambda x: 3.0 * np.sign(x) * np.abs(x) ** 1.1
@@ -549,6 +554,13 @@ def queries():
     Q = []
     Q.append(('range()', lambda d: d.range()))
     Q.append(("range('FL1-H')", lambda d: d.range('FL1-H')))
+    Q.append(('range(2)', lambda d: d.range(2)))
+    # forms outside the documented ones: refused or answered, but the same way whatever was asked before
+    Q.append(('range(np.int64(2))', lambda d: d.range(np.int64(2))))
+    Q.append(('d[:5, np.int64(2)]', lambda d: d[:5, np.int64(2)]))
+    Q.append(('resolution(2.0)', lambda d: d.resolution(2.0)))
+    Q.append(('detector_voltage(True)', lambda d: d.detector_voltage(True)))
+    Q.append(("range('fl1-h')", lambda d: d.range('fl1-h')))
     Q.append(('resolution()', lambda d: d.resolution()))
     Q.append(('amplification_type()', lambda d: d.amplification_type()))
     Q.append(('channel_labels()', lambda d: d.channel_labels()))
